@@ -360,6 +360,11 @@ def import_cases() -> list:
     case("rel-dot", {MAIN: _main(("./lib.exps",)), "src/lib.exps": _lib("real"), "lib.exps": _lib("decoy"), "inc1/lib.exps": _lib("decoy")}, ("inc1",))
     case("rel-dotdot", {MAIN: _main(("../y/z.exps",)), "y/z.exps": _lib("real"), "src/y/z.exps": _lib("decoy"), "inc1/y/z.exps": _lib("decoy")}, ("inc1",))
     case("rel-subdir", {MAIN: _main(("./a/b/lib.exps",)), "src/a/b/lib.exps": _lib("real"), "a/b/lib.exps": _lib("decoy")})
+    # a sibling directory whose NAME begins with the name of the compiled file's directory (src -> src_common): paths are compared
+    # by components, not by string prefix
+    case("rel-sibling-dir-with-common-prefix", {MAIN: _main(("../src_common/shared.exps",), ("m1", "m2")),
+                                                "src_common/shared.exps": _lib("shared", ("m1",), ("./deeper/more.exps",)),
+                                                "src_common/deeper/more.exps": _lib("more", ("m2",))})  # fmt: skip
     case("rel-dotdot-twice", {"src/main.exps": _main(("../../up.exps",)), "../up.exps": _lib("real")})
     # absolute
     case("absolute", {MAIN: _main((f"{R}/abs/lib.exps",)), "abs/lib.exps": _lib("real"), "src/abs/lib.exps": _lib("decoy"),
